@@ -263,6 +263,13 @@ func c05Run(c c05Case, v *vlib.Verdict) {
 	consumed := map[c05UK]bool{} // a grant for the pair was consumed and none added since
 	labels := map[string]bool{}
 	nt := false
+	defer func() { // classification is recorded for violating cases as well
+		v.NonTrivial = nt
+		for l := range labels {
+			v.Label(l)
+		}
+		v.Labelf("ops<=%d", c05Bucket(len(c.Ops)))
+	}()
 
 	grantsForKey := func(k int) int {
 		n := 0
@@ -432,11 +439,6 @@ func c05Run(c c05Case, v *vlib.Verdict) {
 		}
 	}
 
-	v.NonTrivial = nt
-	for l := range labels {
-		v.Label(l)
-	}
-	v.Labelf("ops<=%d", c05Bucket(len(c.Ops)))
 }
 
 func c05Bucket(n int) int {
@@ -462,7 +464,7 @@ func c05GenLine(t *rapid.T) c05Line {
 			kind = c05Comment
 		}
 	}
-	l := c05Line{K: kind, Key: rapid.IntRange(0, verifAuthzNKeys-1).Draw(t, "lkey")}
+	l := c05Line{K: kind, Key: rapid.SampledFrom(c05KeyBias).Draw(t, "lkey")}
 	switch kind {
 	case c05Valid, c05Blank, c05Key31, c05Trailing, c05BOM:
 	default:
@@ -472,31 +474,38 @@ func c05GenLine(t *rapid.T) c05Line {
 }
 
 var c05OpWeights = []string{
-	"login", "login", "login", "login", "login", "login", "login", "login",
+	"login", "login", "login", "login", "login", "login", "login",
 	"write", "write", "write", "write", "write",
-	"grant", "grant", "grant",
+	"grant", "grant", "grant", "grant",
 	"grantlogin", "grantlogin",
-	"enable", "enable",
+	"enable",
 	"remove", "unreadable",
 }
 
+// users and keys are drawn with a bias so that operations of one history collide
+// on the same (user, key) pair often; every pair is still reachable.
+var (
+	c05UserBias = []int{0, 0, 0, 0, 1, 1, 1, 2, 2}
+	c05KeyBias  = []int{0, 0, 0, 0, 1, 1, 1, 2, 2, 3}
+)
+
 func c05GenOp(t *rapid.T) c05Op {
 	op := c05Op{Op: rapid.SampledFrom(c05OpWeights).Draw(t, "op")}
-	op.User = rapid.IntRange(0, len(verifAuthzUsers)-1).Draw(t, "user")
+	op.User = rapid.SampledFrom(c05UserBias).Draw(t, "user")
 	switch op.Op {
 	case "write":
 		op.Lines = rapid.SliceOfN(rapid.Custom(c05GenLine), 0, 5).Draw(t, "lines")
 		op.CRLF = rapid.IntRange(0, 4).Draw(t, "crlf") == 4
 		op.NoNL = rapid.IntRange(0, 2).Draw(t, "nonl") == 2
 	case "enable":
-		op.On = rapid.Bool().Draw(t, "on")
+		op.On = rapid.IntRange(0, 2).Draw(t, "on") != 0
 	case "grant":
-		op.Key = rapid.IntRange(0, verifAuthzNKeys-1).Draw(t, "key")
+		op.Key = rapid.SampledFrom(c05KeyBias).Draw(t, "key")
 		op.GType = rapid.SampledFrom([]int{1, 2, 2, 3, 4, 9}).Draw(t, "gtype")
 		op.Start = rapid.IntRange(-5, 5).Draw(t, "start")
 		op.Exp = rapid.IntRange(-5, 60).Draw(t, "exp")
 	case "login", "grantlogin":
-		op.Key = rapid.IntRange(0, verifAuthzNKeys-1).Draw(t, "key")
+		op.Key = rapid.SampledFrom(c05KeyBias).Draw(t, "key")
 	}
 	return op
 }
@@ -504,7 +513,7 @@ func c05GenOp(t *rapid.T) c05Op {
 func c05Gen(t *rapid.T) c05Case {
 	return c05Case{
 		Enabled: rapid.IntRange(0, 3).Draw(t, "enabled") != 0,
-		Ops:     rapid.SliceOfN(rapid.Custom(c05GenOp), 1, 24).Draw(t, "ops"),
+		Ops:     rapid.SliceOfN(rapid.Custom(c05GenOp), 2, 24).Draw(t, "ops"),
 	}
 }
 
@@ -550,18 +559,43 @@ func c05SelfTest(t *testing.T) {
 	if st := c05RefParse(nil).state(false, verifAuthzKey(0)); st != "empty" {
 		t.Fatalf("VERIF-MACHINERY empty file classified %q", st)
 	}
-	// honest baseline: listed key is admitted, unlisted is not, on a canonical file
+	// fixture sanity (positive direction only, so that a fail-open server still reaches the
+	// search and is reported as a violation there, not as a machinery error): the file
+	// written through the fixture is the one AuthorizeKey reads.
+	restore := verifAuthzInstallThunks(func() time.Time { return verifAuthzT0 })
+	z := verifAuthzNewServer(false)
+	z.WriteKeys("alice", []byte(c05Entry(0)+"\n"+c05Entry(1)+"\n"))
+	err := z.S.AuthorizeKey("alice", verifAuthzKey(1))
+	restore()
+	if err != nil {
+		t.Fatalf("VERIF-MACHINERY fixture: key listed in a canonical file is refused: %v", err)
+	}
+	// classification sanity on an honest history (skipped when the oracle objects: the
+	// search reports that properly)
 	var v vlib.Verdict
-	c05Run(c05Case{Ops: []c05Op{
+	c05Run(c05Case{Enabled: true, Ops: []c05Op{
 		{Op: "write", User: 0, Lines: []c05Line{{K: c05Valid, Key: 0}, {K: c05Valid, Key: 1}}},
 		{Op: "login", User: 0, Key: 1}, {Op: "login", User: 0, Key: 2}, {Op: "login", User: 1, Key: 1},
+		{Op: "grant", User: 1, Key: 1, GType: 1, Exp: 10}, {Op: "login", User: 1, Key: 1}, {Op: "login", User: 1, Key: 1},
 	}}, &v)
-	if !v.OK() {
-		t.Fatalf("VERIF-MACHINERY honest baseline fails: %+v", v.Violations)
+	if v.OK() {
+		have := map[string]bool{}
+		for _, l := range v.Labels {
+			have[l] = true
+		}
+		for _, w := range []string{"login:listed:granted-by-file", "login:other-keys-only:refused", "login:missing:refused",
+			"login:missing:granted-by-grant", "login-after-consumed-grant:refused"} {
+			if !have[w] {
+				t.Fatalf("VERIF-MACHINERY honest history: label %q missing (labels %v)", w, v.Labels)
+			}
+		}
+		if !v.NonTrivial {
+			t.Fatalf("VERIF-MACHINERY honest history not classified non-trivial")
+		}
 	}
 }
 
 func TestVerifC05Login(t *testing.T) {
 	c05SelfTest(t)
-	vlib.Drive(t, vlib.Spec[c05Case]{ID: "C05", Quick: 12000, Gen: c05Gen, Run: c05Guarded})
+	vlib.Drive(t, vlib.Spec[c05Case]{ID: "C05", Quick: 40000, Gen: c05Gen, Run: c05Guarded})
 }
